@@ -4,6 +4,7 @@ results to (a) pivots whose leaving arc is not the tree arc directly above the e
 and (b) the first spanning-tree invariant that is broken at a loop head.
 
     cd /verif && .venv/bin/python triage/C09_ns_trace.py [n_random_cases]
+    cd /verif && .venv/bin/python triage/C09_ns_trace.py exh3 | exh4     (exhaustive scopes of the check, no parallel arcs)
 """
 from __future__ import annotations
 
@@ -91,15 +92,36 @@ def instrumented():
     return ns["network_simplex"]
 
 
-def main():
-    N = int(sys.argv[1]) if len(sys.argv) > 1 else 20000
-    ns = instrumented()
+def cases(mode):
+    import itertools
+    from oracles.flow_exact import has_negative_cycle
+    if mode.startswith("exh"):
+        n, K, caps, costs, bmax = (3, 3, (0, 1, 2), (-1, 0, 1, 2), 2) if mode == "exh3" else (4, 3, (1, 2), (0, 1, 3), 1)
+        types = C.arc_types(n, caps, costs)
+        vecs = C.balanced_vectors(n, bmax)
+        for k in range(1, K + 1):
+            for combo in itertools.combinations(range(len(types)), k):
+                arcs = [list(types[i]) for i in combo]
+                if len({(a[0], a[1]) for a in arcs}) < k or has_negative_cycle(n, arcs):
+                    continue
+                for b in vecs:
+                    yield {"kind": "flow", "n": n, "arcs": arcs, "supplies": b}
+        return
     rng = random.Random(0)
+    for _ in range(10 ** 9):
+        yield C.gen_flow_case(rng, 3, 8)
+
+
+def main():
+    mode = sys.argv[1] if len(sys.argv) > 1 else "20000"
+    N = int(mode) if mode.isdigit() else 10 ** 9
+    ns = instrumented()
     rows = {}
     n_cases = 0
     smallest = {}
-    while n_cases < N:
-        case = C.gen_flow_case(rng, 3, 8)
+    for case in cases(mode):
+        if n_cases >= N:
+            break
         arcs = [tuple(a) for a in case["arcs"]]
         if len({(a[0], a[1]) for a in arcs}) < len(arcs):
             continue  # parallel arcs: a separate defect (flow_dict overwrites), excluded here
@@ -123,7 +145,7 @@ def main():
         if "broken" in TRACE:
             k3 = ("first broken invariant", TRACE["broken"][1], "after deep pivot" if TRACE.get("deep_at", 1 << 30) < TRACE["broken"][0] else "NO deep pivot before")
             rows[k3] = rows.get(k3, 0) + 1
-    print(f"{n_cases} random cases without parallel arcs (generator of checks/C09.py, seed 0)")
+    print(f"{n_cases} cases without parallel arcs, mode {mode} (random: generator of checks/C09.py, seed 0)")
     for k in sorted(rows):
         print(f"  {rows[k]:7d}  {' / '.join(x for x in k if x)}")
     for k, (sz, case, tr, d) in smallest.items():
